@@ -18,7 +18,10 @@ RULE = ("Hypothesis draws (a) single calls (routine, operator, key, parameters) 
         "equal to a mirror RandomState that only sees the user's operations; Rademacher probes on diagonal operators give the "
         "main diagonal exactly; unbiasedness: with the stopping rule disabled the estimate of entry i lies within 7 "
         "sigma_i/sqrt(N) of M[i,i+k] with the closed-form variance of the probe distribution; info['iterations']-1 <= "
-        "max_iters. Non-trivial: k != 0, a history with >= 1 interleaved user draw, or a composite operator.")
+        "max_iters. Non-trivial: k != 0, a history with >= 1 interleaved user draw, or a composite operator. (c) reuse: one "
+        "algorithm object (Hutch / Lanczos / Arnoldi carrying the key) handed twice to trace / diag / logdet / eig / sqrt of "
+        "composite operators with matmat-defined parts (Kronecker of 2-3, BlockDiag, Sum, scalar multiple): both results "
+        "bit-identical and the object's fields unchanged.")
 ASSUMPTIONS = [
     "z = 7 with closed-form variance (Gaussian: sum_j M_ij^2 + M_{i,i+k}^2; Rademacher: sum_{j != i+k} M_ij^2): false-alarm probability ~1e-11 per entry; detects bias of the order of the entries, not far below the sampling error",
     "the stopping rule is disabled by tol = 1.0001e-3 (just above the routine's assert) and a fixed max_iters; the number of probes is read from info['iterations']",
@@ -63,7 +66,15 @@ def call_spec(draw, routines=ROUTINES):
 
 @st.composite
 def cases(draw, tier):
-    mode = draw(st.sampled_from(["single", "single", "history", "unbiased", "rademacher_diag"]))
+    mode = draw(st.sampled_from(["single", "single", "history", "unbiased", "rademacher_diag", "reuse"]))
+    if mode == "reuse":
+        # one algorithm object (carrying the key) handed to the same call twice: composite operators whose rules pass
+        # the object on to their parts, parts without a deterministic rule so that the estimator really runs
+        n = draw(st.sampled_from([4, 6, 8, 9]))
+        return {"mode": mode, "n": n, "seed": draw(st.integers(0, 10**5)), "key": draw(st.integers(1, 2**31 - 1)),
+                "op": draw(st.sampled_from(["generic", "kron", "kron3", "bd", "sum", "prod_scalar", "kron_dense"])),
+                "call": draw(st.sampled_from(["trace_hutch", "trace_hutch", "diag_hutch", "logdet_lanczos_hutch", "eig_lanczos", "eig_arnoldi", "sqrt_lanczos"])),
+                "k": draw(st.integers(-2, 2)), "rand": draw(st.sampled_from(["normal", "rademacher"])), "max_iters": draw(st.integers(1, 6))}
     if mode == "single":
         return {"mode": mode, "call": draw(call_spec())}
     if mode == "unbiased":
@@ -215,6 +226,112 @@ def guarded_call(out, sub, spec):
     return res
 
 
+def alg_snapshot(alg):
+    import copy
+    return copy.deepcopy(dict(vars(alg)))
+
+
+def snap_equal(a, b):
+    if a.keys() != b.keys():
+        return False
+    for k in a:
+        x, y = a[k], b[k]
+        if isinstance(x, np.ndarray) or isinstance(y, np.ndarray):
+            if not (isinstance(x, np.ndarray) and isinstance(y, np.ndarray) and x.shape == y.shape and np.array_equal(x, y)):
+                return False
+        elif x != y:
+            return False
+    return True
+
+
+def build_reuse_op(case):
+    """composite PSD operators whose leaves are matmat-defined (no deterministic diag / trace rule)."""
+    import cola
+    ops = cola.ops
+    rng = np.random.default_rng(case["seed"])
+    n = case["n"]
+
+    def pd(m):
+        B = rng.integers(-2, 3, size=(m, m)).astype(np.float64)
+        return B @ B.T / m + np.eye(m)
+
+    def generic(M):
+        return cola.PSD(ops.LinearOperator(np.float64, M.shape, matmat=lambda X, M=M: M @ X))
+
+    a = [x for x in range(2, n) if n % x == 0][0]
+    kind = case["op"]
+    if kind == "generic":
+        M = pd(n)
+        return generic(M), M
+    if kind == "kron":
+        M1, M2 = pd(a), pd(n // a)
+        return ops.Kronecker(generic(M1), generic(M2)), np.kron(M1, M2)
+    if kind == "kron_dense":
+        M1, M2 = pd(a), pd(n // a)
+        return ops.Kronecker(generic(M1), cola.PSD(ops.Dense(M2))), np.kron(M1, M2)
+    if kind == "kron3":
+        M1, M2, M3 = pd(2), pd(2), pd(2)
+        return ops.Kronecker(generic(M1), generic(M2), generic(M3)), np.kron(np.kron(M1, M2), M3)
+    if kind == "bd":
+        M1, M2 = pd(a), pd(n - a)
+        Z = np.zeros((n, n))
+        Z[:a, :a], Z[a:, a:] = M1, M2
+        return ops.BlockDiag(generic(M1), generic(M2)), Z
+    if kind == "sum":
+        M1, M2 = pd(n), pd(n)
+        return generic(M1) + generic(M2), M1 + M2
+    M = pd(n)
+    return 2.0 * generic(M), 2.0 * M
+
+
+def check_reuse(case, out):
+    import cola
+    L = cola.linalg
+    A, M = build_reuse_op(case)
+    key, call = case["key"], case["call"]
+    out.label("reuse:" + call, "op:" + case["op"])
+    out.nontrivial = True
+    n = M.shape[0]
+    hutch = L.Hutch(tol=1.0001e-3, max_iters=case["max_iters"], rand=case["rand"], key=key)
+    lan = L.Lanczos(max_iters=min(n, 4), tol=1e-10, key=key)
+    arn = L.Arnoldi(max_iters=min(n, 4), tol=1e-10, key=key)
+    algs = {"trace_hutch": [hutch], "diag_hutch": [hutch], "logdet_lanczos_hutch": [lan, hutch], "eig_lanczos": [lan], "eig_arnoldi": [arn],
+            "sqrt_lanczos": [lan]}[call]
+    probe = np.arange(1.0, n + 1)
+
+    def run():
+        if call == "trace_hutch":
+            return L.trace(A, hutch)
+        if call == "diag_hutch":
+            return L.diag(A, case["k"] if case["op"] in ("generic", "sum", "prod_scalar") else 0, hutch)  # structural rules: main diagonal only
+        if call == "logdet_lanczos_hutch":
+            return L.logdet(A, lan, hutch)
+        if call == "eig_lanczos":
+            return L.eig(A, 2, "LM", lan)[0]
+        if call == "eig_arnoldi":
+            return L.eig(A, 2, "LM", arn)[0]
+        return L.sqrt(A, lan) @ probe
+
+    snaps = [alg_snapshot(a) for a in algs]
+    results = []
+    for i in range(2):
+        before = np.random.get_state()
+        try:
+            results.append([np.asarray(x) for x in to_arrays(run())])
+        except Exception as e:
+            out.notes.append(f"reuse:{call}:" + oracle.exc_man(e))
+            return
+        if not state_equal(before, np.random.get_state()):
+            out.fail("global_state", "reuse:" + call, "advanced", "numpy.random.get_state() changed across the call")
+        for a, sn in zip(algs, snaps):
+            if not snap_equal(alg_snapshot(a), sn):
+                out.fail("determinism", f"reuse:{call}:{case['op']}", "algorithm_object_changed",
+                         f"{type(a).__name__} fields after call {i + 1}: {vars(a)} (were {sn})")
+                return
+    if not same(results[0], results[1]):
+        out.fail("determinism", f"reuse:{call}:{case['op']}", "differs", "the same call with the same operator and algorithm object returned different results")
+
+
 def check(case, out):
     mode = case["mode"]
     out.label("mode:" + mode)
@@ -226,6 +343,8 @@ def check(case, out):
 
 
 def _check(case, out, mode):
+    if mode == "reuse":
+        return check_reuse(case, out)
     if mode == "single":
         spec = case["call"]
         out.label("routine:" + spec["routine"], "op:" + spec["op"]["kind"])
